@@ -322,6 +322,10 @@ def run(c):
         elif oc == 'done' and ov.get('routed') != '1':
             bad = ('misrouted', 'an event was delivered to another target than the one it was sent to')
         if bad:
+            # a failure is one of the recorded kind only if the model of the code as it is predicts it on this very
+            # schedule; the same symptom on a schedule on which the model runs to completion is a different defect
+            if not agree:
+                bad = (bad[0] + '+model-disagrees', bad[1] + '; Delay.v (variant of the current code) predicts ' + mc + ' on this schedule')
             ofails.append({'class': bad[0], 'what': bad[1], 'prog': prog, 'sched': sched, 'steps': steps,
                            'observed': {k: r.get(k) for k in ('res', 'fault', 'obs')}, 'model_predicts': mclass})
 
